@@ -47,6 +47,8 @@ def mk(kind, data):
         return (x for x in list(data))
     if kind == 'stream':
         return SharedStream(data)
+    if kind == 'own-iter-list':
+        return OwnIterList(data)
     if kind == 'fresh':
         # every element is a brand-new object that nobody else keeps alive (values computed on the fly)
         return (float(x) if type(x) is int else x for x in list(data))
@@ -71,6 +73,16 @@ class SharedStream(object):
         return drain()
 
 
+class OwnIterList(list):
+    """A list subclass whose iteration is its own business (here: the stored items, each once, but walked from a
+    rotated starting point): the elements of an input are what iterating it yields."""
+
+    def __iter__(self):
+        n = len(self)
+        k = n // 2
+        return iter([list.__getitem__(self, (i + k) % n) for i in range(n)])
+
+
 def tochar(x):
     return ' ' if x is None else x
 
@@ -90,7 +102,7 @@ def check_chunked(c, st):
     kw = {}
     if c['fill'] != _UNSET:
         kw['fill'] = c['fill']
-    elems = list(data)
+    elems = list(mk(kind, data)) if kind == 'own-iter-list' else list(data)
     chunks = [elems[i:i + size] for i in range(0, len(elems), size)]
     if 'fill' in kw and chunks and len(chunks[-1]) < size:
         chunks[-1] = chunks[-1] + [kw['fill']] * (size - len(chunks[-1]))
@@ -110,6 +122,21 @@ def check_chunked(c, st):
     if got2 != ('ok', want_all):
         return ('chunked_iter:%s' % kind, 'chunked_iter(%r, %d, %r) = %r, want %r'
                 % (data, size, kw, got2, want_all))
+    if kind == 'list' and not kw and len(data) >= size:     # (a first chunk that came up short has exhausted the list iterator)
+        # the work-list idiom: items appended to the list while the lazy chunked_iter is being consumed are
+        # delivered too (that is what iterating a growing list gives)
+        src = list(data)
+        seen = []
+        for n_, chunk in enumerate(iu.chunked_iter(src, size)):
+            seen.extend(chunk)
+            if n_ == 0:
+                src.extend(['grown-1', 'grown-2'])
+            if n_ > len(data) + 5:
+                break
+        st.monitor_evals += 1
+        if seen != list(data) + ['grown-1', 'grown-2']:
+            return ('chunked_iter:list-grows-while-consumed', 'chunked_iter over a list that grows by two items after the first '
+                    'chunk delivered %r, iterating the list gives %r' % (seen, list(data) + ['grown-1', 'grown-2']))
     if not kw and c['count'] is None and kind in ('list', 'tuple', 'iter', 'gen'):
         flat = [x for ch in got[1] for x in ch]
         if flat != elems or any(len(ch) != size for ch in got[1][:-1]) or \
@@ -124,7 +151,7 @@ def check_chunked(c, st):
 def check_windowed(c, st):
     iu = common.load('iterutils')
     data, size, kind = c['data'], c['size'], c['kind']
-    s = list(data)
+    s = list(mk(kind, data)) if kind == 'own-iter-list' else list(data)
     if c['fill'] == _UNSET:
         want = [tuple(s[i:i + size]) for i in range(len(s) - size + 1)]
         kw = {}
@@ -201,6 +228,25 @@ def check_strip(c, st):
         if got != ('ok', want) or got_i != ('ok', want):
             return ('%s' % name, '%s(%r, %r) = %r (iter %r), str.%s gives %r'
                     % (name, data, v, got, got_i, name, want))
+    if c.get('mixed'):
+        # elements that are equal to the strip value but are other objects (0.0, False for 0; True, 1.0 for 1): what is
+        # kept must be the input's own elements, in order
+        md, mv = c['mixed'], c['mixed_value']
+        lo = 0
+        while lo < len(md) and md[lo] == mv:
+            lo += 1
+        hi = len(md)
+        while hi > 0 and md[hi - 1] == mv:
+            hi -= 1
+        for name, want in (('strip', md[lo:max(lo, hi)]), ('lstrip', md[lo:]), ('rstrip', md[:hi])):
+            got = outcome(lambda: getattr(iu, name)(mk(c['kind'], md), mv))
+            got_i = outcome(lambda: list(getattr(iu, name + '_iter')(mk(c['kind'], md), mv)))
+            st.monitor_evals += 2
+            for g in (got, got_i):
+                if g[0] != 'ok' or [repr(x) for x in g[1]] != [repr(x) for x in want]:
+                    return (name + ':equal-but-distinct-elements', '%s(%r, %r) = %r, want %r (the very elements of the input)'
+                            % (name, md, mv, g, want))
+        st.count('strip_mixed')
     if len(set(data)) >= 2:
         st.see(('strip', v, tuple(data)))
     st.count('strip')
@@ -371,7 +417,7 @@ def gen(r):
     if fn in ('chunked', 'windowed'):
         size = r.choice([1, 2, 2, 3, 3, 4, 5, 7, 12])
         n = r.choice([0, 1, size - 1, size, size + 1, 2 * size, 2 * size + 1, 3 * size, r.randint(0, 40)])
-        kind = r.choice(['list', 'tuple', 'iter', 'gen', 'str', 'bytes', 'stream', 'fresh'])
+        kind = r.choice(['list', 'tuple', 'iter', 'gen', 'str', 'bytes', 'stream', 'fresh', 'own-iter-list'])
         if kind == 'str':
             data = [r.choice('abc') for _ in range(n)]
             fill = r.choice([_UNSET, _UNSET, '-'])
@@ -396,8 +442,12 @@ def gen(r):
     if fn == 'strip':
         n = r.choice([0, 1, 2, 3, 5, 8])
         data = [r.choice(ALPHA) for _ in range(n)]
-        return {'fn': fn, 'kind': r.choice(['list', 'tuple', 'iter', 'gen']), 'data': data,
-                'value': r.choice(ALPHA), 'default': r.random() < 0.5}
+        c = {'fn': fn, 'kind': r.choice(['list', 'tuple', 'iter', 'gen']), 'data': data,
+             'value': r.choice(ALPHA), 'default': r.random() < 0.5}
+        if r.random() < 0.3:
+            c['mixed'] = [r.choice([0, 0.0, False, 1, True, 1.0, 2, 'a']) for _ in range(r.randint(0, 9))]
+            c['mixed_value'] = r.choice([0, 1, 0.0, True])
+        return c
     if fn == 'group':
         n = r.choice([0, 1, 2, 3, 5, 8, 15])
         if r.random() < 0.3:
